@@ -9,6 +9,7 @@ import (
 	"verif/harness/internal/c02"
 	"verif/harness/internal/c05"
 	"verif/harness/internal/c06"
+	"verif/harness/internal/c07"
 	"verif/harness/internal/c08"
 	"verif/harness/internal/c11"
 	"verif/harness/internal/c14"
@@ -35,6 +36,8 @@ func main() {
 		os.Exit(c06.Main(os.Args[2:]))
 	case "c11":
 		os.Exit(c11.Main(os.Args[2:]))
+	case "c07":
+		os.Exit(c07.Main(os.Args[2:]))
 	case "c05":
 		os.Exit(c05.Main(os.Args[2:]))
 	}
